@@ -3,6 +3,20 @@ use crate::search::Ctx;
 
 pub fn run(prop: &str, cx: &mut Ctx) {
     match prop {
+        "C03" => crate::search_c03::run(cx),
+        "C04" => crate::search_c04::run(cx),
+        "C05" => crate::search_c05::run(cx),
+        "C06" => crate::search_c06::run(cx),
+        "C08" => crate::search_c08::run(cx),
+        "C11" => crate::search_c11::run(cx),
+        "C12" => crate::search_c12::run(cx),
+        "C13" => crate::search_c13::run(cx),
+        "C14" => crate::search_c14::run(cx),
+        "C15" => crate::search_c15::run(cx),
+        "C16" => crate::search_c16::run(cx),
+        "C17" => crate::search_c17::run(cx),
+        "C18" => crate::search_c18::run(cx),
+        "C20" => crate::search_c20::run(cx),
         _ => {
             let _ = cx;
         }
@@ -11,6 +25,20 @@ pub fn run(prop: &str, cx: &mut Ctx) {
 
 pub fn replay(prop: &str, case: &serde_json::Value) -> String {
     match prop {
+        "C03" => crate::search_c03::replay(case),
+        "C04" => crate::search_c04::replay(case),
+        "C05" => crate::search_c05::replay(case),
+        "C06" => crate::search_c06::replay(case),
+        "C08" => crate::search_c08::replay(case),
+        "C11" => crate::search_c11::replay(case),
+        "C12" => crate::search_c12::replay(case),
+        "C13" => crate::search_c13::replay(case),
+        "C14" => crate::search_c14::replay(case),
+        "C15" => crate::search_c15::replay(case),
+        "C16" => crate::search_c16::replay(case),
+        "C17" => crate::search_c17::replay(case),
+        "C18" => crate::search_c18::replay(case),
+        "C20" => crate::search_c20::replay(case),
         _ => format!("no replay handler for {} case {}", prop, case),
     }
 }
